@@ -171,3 +171,7 @@ impl Display for Formatted<'_, Numeric> {
         t.unit.fmt(out)
     }
 }
+
+#[cfg(kani)]
+#[path = "/verif/kani/numeric.rs"]
+mod kani_verif;
